@@ -240,25 +240,6 @@ Proof.
   destruct (str_eqb n0 k); [reflexivity | exact IH].
 Qed.
 
-Lemma lookup_assign t n v k : lookup (assign t n v) k = if str_eqb n k then Some v else lookup t k.
-Proof.
-  induction t as [|[n0 a0] r IH]; simpl.
-  - reflexivity.
-  - destruct (str_eqb n0 n) eqn:E0.
-    + apply str_eqb_eq in E0. subst. simpl. destruct (str_eqb n k); reflexivity.
-    + simpl. destruct (str_eqb n0 k) eqn:E1.
-      * destruct (str_eqb n k) eqn:E2; [|reflexivity].
-        apply str_eqb_eq in E1, E2. subst. rewrite str_eqb_refl in E0. discriminate.
-      * exact IH.
-Qed.
-
-Lemma keys_assign t n v : keys (assign t n v) = if has_key t n then keys t else keys t ++ [n].
-Proof.
-  unfold has_key. induction t as [|[n0 a0] r IH]; simpl; [reflexivity|].
-  destruct (str_eqb n0 n) eqn:E; simpl; [reflexivity|].
-  unfold keys in *. rewrite IH. destruct (lookup r n); reflexivity.
-Qed.
-
 Lemma keys_snoc t n a : keys (t ++ [(n, a)]) = keys t ++ [n].
 Proof. unfold keys. now rewrite map_app. Qed.
 
@@ -271,9 +252,8 @@ Qed.
 Lemma insert_label_ok s n a s' : insert_label s n a = inl s' ->
   has_key (p_tbl s) n = false /\ p_tbl s' = p_tbl s ++ [(n, a)] /\ p_pos s' = n :: p_pos s /\ p_used s' = a :: p_used s.
 Proof.
-  unfold insert_label. destruct (has_key (p_tbl s) n) eqn:H.
-  - destruct (mem_str n (p_pos s)); discriminate.
-  - intros E. inversion E; subst. simpl. auto.
+  unfold insert_label. destruct (has_key (p_tbl s) n) eqn:H; [discriminate|].
+  intros E. inversion E; subst. simpl. auto.
 Qed.
 
 Definition decl_names (evs : list lev) : list str :=
@@ -282,10 +262,6 @@ Definition decl_addrs (evs : list lev) : list Z :=
   flat_map (fun e => match e with Decl _ a => [a] | Silent _ _ => [] end) evs.
 Definition silent_names (evs : list lev) : list str :=
   flat_map (fun e => match e with Silent n _ => [n] | Decl _ _ => [] end) evs.
-
-(* the guard of the theorems: no segment label ('_.wflip_area_start_i') has the name of a declared or start label *)
-Definition no_collision (evs : list lev) (starts : list (str * Z)) : bool :=
-  forallb (fun s => negb (mem_str s (decl_names evs)) && negb (mem_str s (map fst starts))) (silent_names evs).
 
 Lemma mem_str_in k l : mem_str k l = true <-> In k l.
 Proof.
@@ -324,86 +300,52 @@ Proof.
     + destruct (I3 x E) as (l & L1 & L2). exists l. split; [now right|]. rewrite lookup_snoc. now rewrite L2.
 Qed.
 
-Lemma inv_assign s n a : inv s -> ~ In n (p_pos s) -> inv (mkp (assign (p_tbl s) n a) (p_pos s) (p_used s)).
+Lemma inv_silent s n a : inv s -> has_key (p_tbl s) n = false ->
+  inv (mkp (p_tbl s ++ [(n, a)]) (p_pos s) (p_used s)).
 Proof.
-  intros [I1 I2 I3] NP. constructor; simpl.
-  - rewrite keys_assign. destruct (has_key (p_tbl s) n) eqn:H; [exact I1|].
-    apply NoDup_snoc; [exact I1 | now apply has_key_false].
-  - intros l L. rewrite keys_assign. destruct (has_key (p_tbl s) n); [auto | apply in_or_app; left; auto].
-  - intros x X. destruct (I3 x X) as (l & L1 & L2). exists l. split; [exact L1|].
-    rewrite lookup_assign. destruct (str_eqb n l) eqn:E; [|exact L2].
-    apply str_eqb_eq in E. subst. contradiction.
+  intros [I1 I2 I3] K. apply has_key_false in K. constructor; simpl.
+  - rewrite keys_snoc. now apply NoDup_snoc.
+  - intros l L. rewrite keys_snoc. apply in_or_app. left. auto.
+  - intros x X. destruct (I3 x X) as (l & L1 & L2). exists l. split; [exact L1|]. rewrite lookup_snoc. now rewrite L2.
 Qed.
 
-(* run_events: positions are exactly the declared names seen so far *)
+(* run_events: the table only grows, by entries whose key was absent *)
 Lemma run_events_inv : forall evs s s',
   run_events evs s = inl s' -> inv s ->
-  (forall n, In n (silent_names evs) -> ~ In n (p_pos s) /\ ~ In n (decl_names evs)) ->
-  inv s' /\ (forall l, In l (p_pos s') <-> In l (p_pos s) \/ In l (decl_names evs)) /\
+  inv s' /\
+  (forall n a, lookup (p_tbl s) n = Some a -> lookup (p_tbl s') n = Some a) /\
+  (forall n a, In (Decl n a) evs -> lookup (p_tbl s') n = Some a) /\
   (forall a, In a (p_used s) \/ In a (decl_addrs evs) -> In a (p_used s')) /\
   (forall l, In l (keys (p_tbl s')) -> In l (keys (p_tbl s)) \/ In l (decl_names evs) \/ In l (silent_names evs)).
 Proof.
-  induction evs as [|e r IH]; intros s s' H I G.
-  - simpl in H. inversion H; subst. simpl. split; [exact I|]. split; [intros l; tauto|].
+  induction evs as [|e r IH]; intros s s' H I.
+  - simpl in H. inversion H; subst. simpl. split; [exact I|]. split; [auto|]. split; [intros n a []|].
     split; [intros a [A|[]]; exact A | intros l L; now left].
   - destruct e as [n a|n a]; simpl in H.
     + destruct (insert_label s n a) as [s1|err] eqn:IL; [|discriminate].
       destruct (insert_label_ok _ _ _ _ IL) as (K & T & P & U).
-      assert (G1 : forall n0, In n0 (silent_names r) -> ~ In n0 (p_pos s1) /\ ~ In n0 (decl_names r)).
-      { intros n0 N0. destruct (G n0) as [G1 G2]; [exact N0|]. rewrite P. simpl in G2. split.
-        - intros [C|C]; [apply G2; now left | auto].
-        - intros C. apply G2. now right. }
-      destruct (IH s1 s' H (inv_insert _ _ _ _ I IL) G1) as (J1 & J2 & J3 & J4).
-      split; [exact J1|]. split; [|split].
-      * intros l. rewrite J2, P. simpl. split; intros [X|X]; auto; destruct X; auto.
-      * intros x X. apply J3. rewrite U. simpl in *. destruct X as [X|[X|X]]; auto.
-      * intros l L. destruct (J4 l L) as [X|[X|X]].
+      destruct (IH s1 s' H (inv_insert _ _ _ _ I IL)) as (J1 & J2 & J3 & J4 & J5).
+      split; [exact J1|]. split; [|split; [|split]].
+      * intros n0 a0 L. apply J2. rewrite T, lookup_snoc. now rewrite L.
+      * intros n0 a0 [E|E]; [|now apply J3].
+        inversion E; subst. apply J2. rewrite T, lookup_snoc.
+        apply has_key_false, lookup_none_keys in K. rewrite K. now rewrite str_eqb_refl.
+      * intros x X. apply J4. rewrite U. simpl in *. destruct X as [X|[X|X]]; auto.
+      * intros l L. destruct (J5 l L) as [X|[X|X]].
         -- rewrite T, keys_snoc in X. apply in_app_or in X. destruct X as [X|[X|[]]]; [auto|]. subst. right. left. now left.
         -- right. left. now right.
         -- right. right. exact X.
-    + assert (NP : ~ In n (p_pos s)) by (apply (G n); now left).
-      assert (G1 : forall n0, In n0 (silent_names r) -> ~ In n0 (p_pos s) /\ ~ In n0 (decl_names r)).
-      { intros n0 N0. apply G. now right. }
-      destruct (IH _ s' H (inv_assign s n a I NP) G1) as (J1 & J2 & J3 & J4).
-      split; [exact J1|]. split; [|split].
-      * intros l. rewrite J2. simpl. tauto.
-      * intros x X. apply J3. simpl. exact X.
-      * intros l L. destruct (J4 l L) as [X|[X|X]].
-        -- simpl in X. rewrite keys_assign in X. destruct (has_key (p_tbl s) n); [auto|].
-           apply in_app_or in X. destruct X as [X|[X|[]]]; [auto|]. subst. right. right. now left.
+    + destruct (has_key (p_tbl s) n) eqn:K; [discriminate|].
+      destruct (IH _ s' H (inv_silent s n a I K)) as (J1 & J2 & J3 & J4 & J5).
+      split; [exact J1|]. split; [|split; [|split]].
+      * intros n0 a0 L. apply J2. simpl. rewrite lookup_snoc. now rewrite L.
+      * intros n0 a0 [E|E]; [discriminate | now apply J3].
+      * intros x X. apply J4. simpl. exact X.
+      * intros l L. destruct (J5 l L) as [X|[X|X]].
+        -- simpl in X. rewrite keys_snoc in X. apply in_app_or in X. destruct X as [X|[X|[]]]; [auto|].
+           subst. right. right. now left.
         -- auto.
         -- right. right. now right.
-Qed.
-
-(* a declared label keeps the address of its declaration *)
-Lemma run_events_keeps : forall evs s s' n a,
-  run_events evs s = inl s' -> lookup (p_tbl s) n = Some a -> ~ In n (silent_names evs) -> lookup (p_tbl s') n = Some a.
-Proof.
-  induction evs as [|e r IH]; intros s s' n a H L NS.
-  - simpl in H. inversion H; subst. exact L.
-  - destruct e as [n0 a0|n0 a0]; simpl in H.
-    + destruct (insert_label s n0 a0) as [s1|err] eqn:IL; [|discriminate].
-      destruct (insert_label_ok _ _ _ _ IL) as (K & T & P & U).
-      apply (IH s1 s' n a H); [|exact NS]. rewrite T, lookup_snoc. now rewrite L.
-    + apply (IH _ s' n a H).
-      * simpl. rewrite lookup_assign. destruct (str_eqb n0 n) eqn:E; [|exact L].
-        apply str_eqb_eq in E. subst. exfalso. apply NS. now left.
-      * intros C. apply NS. now right.
-Qed.
-
-Lemma run_events_decl : forall evs s s' n a,
-  run_events evs s = inl s' -> In (Decl n a) evs -> ~ In n (silent_names evs) -> lookup (p_tbl s') n = Some a.
-Proof.
-  induction evs as [|e r IH]; intros s s' n a H I NS; [destruct I|].
-  destruct e as [n0 a0|n0 a0]; simpl in H.
-  - destruct (insert_label s n0 a0) as [s1|err] eqn:IL; [|discriminate].
-    destruct (insert_label_ok _ _ _ _ IL) as (K & T & P & U).
-    destruct I as [E|I].
-    + inversion E; subst. apply (run_events_keeps r s1 s' n a H); [|exact NS].
-      rewrite T, lookup_snoc. apply has_key_false, lookup_none_keys in K. rewrite K. now rewrite str_eqb_refl.
-    + apply (IH s1 s' n a H I NS).
-  - destruct I as [E|I]; [discriminate|].
-    apply (IH _ s' n a H I). intros C. apply NS. now right.
 Qed.
 
 (* run_starts *)
@@ -441,14 +383,6 @@ Proof.
            intros C. apply Y2. rewrite U. now right.
 Qed.
 
-Lemma no_collision_spec evs starts : no_collision evs starts = true ->
-  forall n, In n (silent_names evs) -> ~ In n (decl_names evs) /\ ~ In n (map fst starts).
-Proof.
-  unfold no_collision. rewrite forallb_forall. intros H n N. specialize (H n N).
-  apply andb_true_iff in H. destruct H as [H1 H2]. apply negb_true_iff in H1, H2.
-  split; intros C; apply mem_str_in in C; congruence.
-Qed.
-
 Lemma in_decl_names n a evs : In (Decl n a) evs -> In n (decl_names evs) /\ In a (decl_addrs evs).
 Proof.
   intros H. unfold decl_names, decl_addrs. rewrite !in_flat_map. split; exists (Decl n a); simpl; auto.
@@ -466,41 +400,62 @@ Proof.
   - now apply IH.
 Qed.
 
-(* The table as built by the preprocessor (guard: no segment-label name collision - see C16_table_refuted):
+(* The table as built by the preprocessor:
    1. keys are unique; 2. every declared label maps to the address of its declaration;
    3. a start label that made it into the table sits at its expansion's start address and no declared label has that
-      address; 4. every expansion start address carries a label. *)
+      address (start names are pairwise distinct and differ from every declared and segment label - C16_unique);
+   4. every expansion start address carries a label. *)
 Theorem table_exact evs starts t :
-  build evs starts = BOk t -> no_collision evs starts = true ->
+  build evs starts = BOk t ->
   NoDup (keys t) /\
   (forall n a, In (Decl n a) evs -> lookup t n = Some a) /\
-  (NoDup (map fst starts) -> (forall n, In n (map fst starts) -> ~ In n (decl_names evs)) ->
+  (NoDup (map fst starts) ->
+   (forall n, In n (map fst starts) -> ~ In n (decl_names evs) /\ ~ In n (silent_names evs)) ->
    forall n a a', In (n, a) starts -> lookup t n = Some a' -> a' = a /\ ~ In a (decl_addrs evs)) /\
   (forall n a, In (n, a) starts -> exists l, lookup t l = Some a).
 Proof.
-  unfold build. intros H G.
+  unfold build. intros H.
   destruct (run_events evs (mkp [] [] [])) as [s1|e1] eqn:R1; [|destruct e1; discriminate].
   destruct (run_starts (rev starts) s1) as [s2|e2] eqn:R2; [|destruct e2; discriminate].
   inversion H; subst. clear H.
-  pose proof (no_collision_spec _ _ G) as GS.
-  assert (G1 : forall n, In n (silent_names evs) -> ~ In n (p_pos (mkp [] [] [])) /\ ~ In n (decl_names evs)).
-  { intros n N. split; [simpl; tauto | apply (GS n N)]. }
-  destruct (run_events_inv _ _ _ R1 inv_init G1) as (I1 & P1 & U1 & K1).
+  destruct (run_events_inv _ _ _ R1 inv_init) as (I1 & _ & D1 & U1 & K1).
   destruct (run_starts_inv _ _ _ R2 I1) as (I2 & L2 & U2 & S2 & N2).
   split; [apply (i_nodup _ I2)|]. split; [|split].
-  - intros n a D. apply L2. apply (run_events_decl _ _ _ _ _ R1 D).
-    intros C. destruct (in_decl_names _ _ _ D) as [DN _]. now apply (proj1 (GS n C)).
+  - intros n a D. apply L2. now apply D1.
   - intros ND FR n a a' IS L.
     assert (LN : lookup (p_tbl s1) n = None).
-    { apply lookup_none_keys. intros C. destruct (K1 n C) as [X|[X|X]].
-      - destruct X.
-      - apply (FR n); [apply (in_map fst) in IS; exact IS | exact X].
-      - apply (proj2 (GS n X)). apply (in_map fst) in IS. exact IS. }
+    { apply lookup_none_keys. intros C. apply (in_map fst) in IS. simpl in IS.
+      destruct (FR n IS) as [F1 F2]. destruct (K1 n C) as [X|[X|X]]; [destruct X | auto | auto]. }
     destruct (N2 n a' LN L) as [X Y]. apply in_rev in X.
     assert (a' = a) by (eapply nodup_fst_functional; eauto). subst a'.
     split; [reflexivity|]. intros C. apply Y. apply U1. now right.
   - intros n a IS. apply in_rev in IS. pose proof (S2 n a IS) as X.
     destruct (i_used _ I2 a X) as (l & _ & L). now exists l.
+Qed.
+
+(* a second declaration of a name is an error exit, whichever of the two is the segment label:
+   when the table is built, all declared and segment label names are pairwise distinct *)
+Definition ev_name (e : lev) : str := match e with Decl n _ => n | Silent n _ => n end.
+
+Lemma run_events_keys : forall evs s s',
+  run_events evs s = inl s' -> keys (p_tbl s') = keys (p_tbl s) ++ map ev_name evs.
+Proof.
+  induction evs as [|e r IH]; intros s s' H.
+  - simpl in H. inversion H; subst. simpl. now rewrite app_nil_r.
+  - destruct e as [n a|n a]; simpl in H.
+    + destruct (insert_label s n a) as [s1|err] eqn:IL; [|discriminate].
+      destruct (insert_label_ok _ _ _ _ IL) as (K & T & P & U).
+      rewrite (IH s1 s' H), T, keys_snoc. simpl. now rewrite <- app_assoc.
+    + destruct (has_key (p_tbl s) n) eqn:K; [discriminate|].
+      rewrite (IH _ s' H). simpl. rewrite keys_snoc. now rewrite <- app_assoc.
+Qed.
+
+Theorem names_distinct evs starts t : build evs starts = BOk t -> NoDup (map ev_name evs).
+Proof.
+  unfold build. intros H.
+  destruct (run_events evs (mkp [] [] [])) as [s1|e1] eqn:R1; [|destruct e1; discriminate].
+  destruct (run_events_inv _ _ _ R1 inv_init) as (I1 & _).
+  pose proof (i_nodup _ I1) as N. rewrite (run_events_keys _ _ _ R1) in N. exact N.
 Qed.
 
 (* ---------- save / load ---------- *)
